@@ -375,7 +375,7 @@ let read_traces ic : trace list =
            (match !cur, final_parse f with
             | Some c, Some ff ->
                 (try cur := Some { c with events = EFinal (ff, res_parse r, drops_parse d) :: c.events }
-                 with Failure m -> cur := Some { c with flags = ("unparsed:" ^ r) :: c.flags })
+                 with Failure m -> cur := Some { c with flags = ("unparsed-final:" ^ r) :: c.flags })
             | _ -> ())
        | ["E"; t; "leftover"; d] -> (match !cur with Some c -> cur := Some { c with flags = ("leftover:" ^ t ^ ":" ^ d) :: c.flags } | None -> ())
        | ["complete"; "0"] -> (match !cur with Some c -> cur := Some { c with flags = "incomplete" :: c.flags } | None -> ())
